@@ -4,7 +4,7 @@
 # prints: applies / suite-passes / demo-fails-with / demo-passes-without
 set -u
 id=$1; k=$2
-SRC=/tmp/seed-out/$id
+SRC=${SEEDSRC:-/tmp/seed-out}/$id
 WT=/tmp/verify-wt
 FEAT=""
 [ "$id" = C17 ] && FEAT="--features serde-json"
